@@ -36,6 +36,7 @@ type Program struct {
 	invCache  map[string]*ModSet
 	inlCache  map[*ssa.Function]bool
 	pureCache map[*ssa.Function]bool
+	regionMods map[*ssa.Function]*ModSet
 	specFuncs map[string]*SpecFunc
 	globalInit map[string]*GlobalFact
 }
